@@ -24,6 +24,7 @@ pub struct RawCall {
     pad: u16,
     flags_first: bool,
     fault: Option<u8>,
+    soup: (u16, u16),
 }
 
 fn raw_call_strategy(f: Features) -> impl Strategy<Value = RawCall> {
@@ -32,9 +33,11 @@ fn raw_call_strategy(f: Features) -> impl Strategy<Value = RawCall> {
         prop::bool::weighted(0.3).prop_map(move |b| b && f.oneway),
         prop_oneof![5 => 0u16..6, 1 => 150u16..300, 1 => 0u16..600],
         any::<bool>(),
-        prop::option::weighted(0.12, 0u8..FAULT_KINDS.len() as u8).prop_map(move |o| o.filter(|_| f.faults)),
+        // index FAULT_KINDS.len() and above = a generated undecodable frame
+        prop::option::weighted(0.12, 0u8..FAULT_KINDS.len() as u8 + 4).prop_map(move |o| o.filter(|_| f.faults)),
+        (any::<u16>(), prop_oneof![3 => 0u16..40, 3 => 40u16..130, 2 => 130u16..400, 1 => 400u16..900]),
     )
-        .prop_map(|(kind, oneway, pad, flags_first, fault)| RawCall { kind, oneway, pad, flags_first, fault })
+        .prop_map(|(kind, oneway, pad, flags_first, fault, soup)| RawCall { kind, oneway, pad, flags_first, fault, soup })
 }
 
 fn resolve_frames(raw: &[RawCall], f: Features) -> Vec<FrameSpec> {
@@ -42,7 +45,10 @@ fn resolve_frames(raw: &[RawCall], f: Features) -> Vec<FrameSpec> {
         .enumerate()
         .map(|(i, r)| {
             if let Some(k) = r.fault {
-                return FrameSpec::Fault(FAULT_KINDS[k as usize]);
+                return FrameSpec::Fault(match FAULT_KINDS.get(k as usize) {
+                    Some(k) => *k,
+                    None => FaultKind::Soup { seed: r.soup.0, len: r.soup.1 },
+                });
             }
             let kind = match r.kind {
                 0 | 1 | 2 => CallKind::Echo,
